@@ -687,7 +687,7 @@ func listenerCheck(an *Analysis, prop string, relax func(e *model.Expect, data [
 				if len(cbs) > 0 {
 					v("callback-without-socket", fmt.Sprintf("%d callback(s) although the listen address was never bound", len(cbs)))
 				}
-				if bindFail != nil && bindFail.Note != "injected" && !foreignHolds(sc, sc.Clients[st.Client].Listen) {
+				if bindFail != nil && bindFail.Note != "injected" && !foreignHolds(sc, sc.Clients[st.Client].Listen) && !heldByAnother(res, bindFail) {
 					v("rebind-failed", fmt.Sprintf("the listen address could not be bound (%s) although the previous listener had returned", bindFail.Err))
 				}
 				continue
@@ -715,8 +715,8 @@ func listenerCheck(an *Analysis, prop string, relax func(e *model.Expect, data [
 			// expected callbacks from the delivery log
 			type want struct {
 				valid, soft bool
-				exp          model.Expect
-				d            vnet.Ev
+				exp         model.Expect
+				d           vnet.Ev
 			}
 			var wants []want
 			for _, d := range delivered {
@@ -794,6 +794,29 @@ func listenerCheck(an *Analysis, prop string, relax func(e *model.Expect, data [
 			}
 		}
 	}
+}
+
+// heldByAnother: when the bind failed, another socket of this process (another listener) held that port.
+func heldByAnother(res *engine.Result, fail *vnet.Ev) bool {
+	ap, err := netip.ParseAddrPort(fail.Src)
+	if err != nil {
+		return false
+	}
+	open := map[int]bool{}
+	for _, e := range res.Trace {
+		if e.Seq >= fail.Seq {
+			break
+		}
+		switch e.Kind {
+		case "sock-open":
+			if p, err := netip.ParseAddrPort(e.Src); err == nil && p.Port() == ap.Port() && strings.HasPrefix(e.Note, "udp") {
+				open[e.Sock] = true
+			}
+		case "sock-close":
+			delete(open, e.Sock)
+		}
+	}
+	return len(open) > 0
 }
 
 func foreignHolds(sc *engine.Scenario, listen string) bool {
@@ -884,7 +907,6 @@ func trunc(s string, n int) string {
 }
 
 var _ = reflect.DeepEqual
-
 
 // ---- C13 ------------------------------------------------------------------------------------
 
